@@ -161,7 +161,8 @@ func binEconomy(ev *vlib.Evidence, prop string, idx int) {
 		flag string
 		wei  int64 // per minute
 	}
-	prices := []priceCfg{{"", 100e9}, {"6000000000", 6e9}, {"6 gwei", 6e9}, {"0.0000006 ether", 600e9}, {"60000", 60000}}
+	prices := []priceCfg{{"", 100e9}, {"6000000000", 6e9}, {"6 gwei", 6e9}, {"0.0000006 ether", 600e9}, {"60000", 60000},
+		{"6 szabo", 6e12}, {"0.06 finney", 6e13}, {"6 mwei", 6e6}, {"60 kwei", 60000}, {"6 shannon", 6e9}}
 	pc := prices[(idx/len7+idx)%len(prices)]
 	perSec := pc.wei / 60
 	// minimum: unset, off, a positive value, zero, a negative value ~1.5 s of billing, a very negative one
